@@ -982,11 +982,14 @@ PROPS = {
     "C11": dict(
         prop_file="Properties/C11.v",
         check_module="C11Check",
-        theorems={t: [] for t in ["C11_hash_map_roundtrip", "C11_handle_table_roundtrip"]},
+        theorems={t: [] for t in ["C11_hash_map_roundtrip", "C11_handle_table_roundtrip", "C11_owned_roundtrip",
+                                  "C11_value_roundtrip", "C11_owned_fuel", "C11_owned_fuel_stable",
+                                  "C11_insert_keeps_tables",
+                                  "C11_nan_key_row_lost"]},
         n_quick=160, n_thorough=1500,
         gates=["hm.Json", "hm.Cbor", "hm.Bincode", "ht.Json", "ht.Cbor", "ht.Bincode", "rt.module.Json",
                "rt.module.Yaml", "rt.program.Json", "rt.program.Cbor", "rt.program.Bincode", "rt.value.Json",
-               "rt.value.Cbor", "rt.value.Bincode"],
+               "rt.value.Cbor", "rt.value.Bincode", "ow.plain", "ow.wild", "ow.table"],
         rule="(a) CaoHashMap<i64,i64> and HandleTable<i64> with 0..130 entries (sizes around powers of two and the "
              "load thresholds, some after removals) through JSON / CBOR / bincode: the entries in serialization "
              "order, the size hint the format reports, and the decoded map's iteration order and capacity are "
@@ -995,8 +998,11 @@ PROPS = {
              "data, sorted labels / variables / trace); compiled program through JSON / CBOR / bincode: fields "
              "equal and same outcome and globals when run; (c) random values (nil, boundary ints, reals incl. "
              "-0.0 / subnormal / max, unicode and escaped strings, nested ordered tables) VM -> owned -> format -> "
-             "owned -> second VM -> owned: deep equal with table order; non-trivial = map cases with > 1 entry, all "
-             "round-trip cases; distinct = distinct case term",
+             "owned -> second VM -> owned: deep equal with table order; (d) the same values and 'wild' ones (nil / real / "
+             "-0.0 / NaN / repeated keys) as OwnedValue terms: try_from(insert_value(o)) of the crate = the Coq model "
+             "(Owned.insert_owned into the empty heap, then owned_of) [code 1]; o of the class owned_ok comes back "
+             "bit for bit, and what try_from answered survives the format and the second VM [code 2]; "
+             "non-trivial = map cases with > 1 entry, all round-trip cases; distinct = distinct case term",
         trusted_base=COMMON_TB + [
             "serde derive output and the format crates (serde_json, serde_yaml, ciborium, bincode) are treated as "
             "an identity on the serde data model: exercised by the round-trip stream, not modelled",
@@ -1004,8 +1010,9 @@ PROPS = {
             "(serialize in slot order; deserialize = with_capacity(power of two from the size hint or 128) + insert)"],
         assumptions=[
             "round trips (b) and (c) are judged natively by the harness (field-wise comparison, run outcome) and "
-            "passed through the checker as verdict cases; there is no theorem about program equivalence or "
-            "OwnedValue conversion yet",
+            "passed through the checker as verdict cases; there is no theorem about program equivalence",
+            "the OwnedValue theorems are about the VM model's heap (no allocation failure, no collection during "
+            "insert_value) and exclude tables used as keys and NaN keys (C11_nan_key_row_lost shows why)",
             "the program stream is the hand-written library until the random module generator is merged",
         ],
     ),
